@@ -116,7 +116,12 @@ func runCLI(in []byte) (*reg.Result, error) {
 				if clean, _ := os.ReadFile(filepath.Join(root, "fmt/v1/clean.proto")); string(clean) != optsFormattedClean {
 					res.Violate("cli/formatted-file-touched/"+delta, info, "buf format -w changed a file that was already formatted")
 				}
-				// 3. nothing left to do
+				// 3. nothing left to do (where the formatter itself is not idempotent on this file, that is the finding of the
+				// library stage, with its own signature: not judged again here)
+				again, _, aerr := format(want)
+				if aerr != nil || again != want {
+					continue
+				}
 				if stdout, stderr, code := runBuf("format", "-d", "--exit-code"); code != 0 || stdout != "" {
 					if string(got) == want {
 						res.Violate("cli/not-clean-after-write/"+delta, info, "buf format -d --exit-code after -w: exit %d, output %q %s", code, stdout, stderr)
